@@ -14,6 +14,7 @@ PREFIXES = ["C03.", "C01.", "Any.Crash"]
 def run(chk):
     cerlib.run_config(chk, "C03", PREFIXES)
     cerlib.run_config(chk, "C03client" if chk.tier == "thorough" else "C03clientQ", PREFIXES)
+    cerlib.random_histories(chk, PREFIXES, quick_n=150)
     cerlib.finish_cov(chk, "one behaviour per (registration history, request RP, allow list, list given or not, verification requirement)",
                       False, "bounded histories, abstract cryptography; exhaustive within the bound")
 
